@@ -3,7 +3,7 @@
    Model: errs/Errs.v (gerr = the error values users can build; call r e = what
    Client.Call returns when the handler returned (value, e) and json.Marshal(value) = r). *)
 From Coq Require Import List NArith ZArith Bool.
-From JV Require Import Bytes Msg ErrsJson Errs ErrsProofs.
+From JV Require Import Bytes Msg ErrsJson ErrsJsonProofs Errs ErrsProofs.
 Import ListNotations.
 Local Open Scope Z_scope.
 
@@ -48,9 +48,20 @@ Print Assumptions c14_wrap_preserves_code.
 
 Theorem c14_error_verbatim : forall r c m d d',
   c <> Cancelled -> c <> DeadlineExceeded -> valid_utf8 m = true -> wire_data d = Some d' ->
-  call r (EJrpc c m d) = OErr (EJrpc c m d').
+  call r (EJrpc c m d) = OErr (EJrpc c m d') /\
+  json_content d' = json_content d /\ d' = squeeze SqOut d.
 Proof. exact error_verbatim. Qed.
 Print Assumptions c14_error_verbatim.
+
+Theorem c14_error_verbatim_domain : forall d,
+  (exists d', wire_data d = Some d') <-> (d = [] \/ json_valid d = true).
+Proof. exact wire_data_some_iff. Qed.
+Print Assumptions c14_error_verbatim_domain.
+
+Theorem c14_data_json_equal : forall d d',
+  compact d = Some d' -> json_content d' = json_content d /\ d' = squeeze SqOut d.
+Proof. exact data_json_equal. Qed.
+Print Assumptions c14_data_json_equal.
 
 Theorem c14_error_verbatim_refuted_sentinel_codes : forall r m d d',
   wire_data d = Some d' ->
@@ -83,7 +94,7 @@ Theorem c14_sentinels : forall r e,
   first_coder e = None ->
   (reaches false e = true -> call r e = OErr ECanceled) /\
   (reaches false e = false -> reaches true e = true -> call r e = OErr EDeadline).
-Proof. exact (fun r e Hf => conj (sentinel_canceled r e Hf) (sentinel_deadline r e Hf)). Qed.
+Proof. exact sentinels. Qed.
 Print Assumptions c14_sentinels.
 
 Theorem c14_sentinels_exact : forall r e,
